@@ -250,7 +250,7 @@ def run(src, tier, seed):
     # highest order, is conflict[0]).  The block between analyzeFinal and the assignment is evaluated abstractly in every engine.
     from boolctor import Interp, Unmodelled, Thrown
     rv = res.rule('conflict-frame-value', 'in every engine the statements between analyzeFinal and the assignment of conflict_frame, evaluated abstractly on three final conflicts, give 1 + the '
-                  'largest assumption order over all positive literals of the conflict, wherever in the vector that literal stands', floor=2)
+                  'largest assumption order over all positive literals of the conflict, wherever in the vector that literal stands', floor=1)
     for f in an_callers.values():
         done = False
         for blk in (b for b in walk(f['body'], f.get('lambdas')) if b.get('k') == 'seq'):
@@ -283,6 +283,8 @@ def run(src, tier, seed):
             else:
                 res.ok(rv, '%s: 1 + max order over all positive literals' % f['name'].replace('opensmt::', ''))
         if not done:
+            if not any(n.get('k') == 'bin' and n.get('op') == '=' and (path_of(n['l']) or '').endswith('conflict_frame') for n in fwalk(f)):
+                continue               # no assignment at all: reported by the rule above
             raise AnalysisBroken('%s: analyzeFinal and the conflict_frame assignment are not in one block' % f['name'])
     writers = set()
     for f in fx.F.values():
